@@ -433,6 +433,6 @@ def _run_hist(c: HistCase, stats: Stats, root: str) -> None:
 
 
 PARTS = [
-    HypPart("fresh", lambda tier: fresh_cases(), run_fresh_case, {"quick": 208, "thorough": 4160}, describe=describe_fresh),
-    HypPart("history", lambda tier: hist_cases(), run_hist_case, {"quick": 144, "thorough": 2880}, describe=describe_hist),
+    HypPart("fresh", lambda tier: fresh_cases(), run_fresh_case, {"quick": 176, "thorough": 3520}, describe=describe_fresh),
+    HypPart("history", lambda tier: hist_cases(), run_hist_case, {"quick": 128, "thorough": 2560}, describe=describe_hist),
 ]
